@@ -80,10 +80,11 @@ func (pm *plainModel) size() int {
 	return -1
 }
 
-// anyNil: a value that has no JSON form other than null - nil, a nil pointer, a nil slice, a nil map.
+// anyNil: a value that has no JSON form other than null - nil, a nil pointer, a nil slice, a nil map - or no
+// JSON form at all (NaN, infinities, channels, functions, complex numbers, also nested in a container).
 func anyNil(vs []sim.Val) bool {
 	for _, v := range vs {
-		if v.IsNullLike() {
+		if v.IsNullLike() || v.Unencodable() {
 			return true
 		}
 	}
@@ -230,6 +231,16 @@ func genC03Val(rt *rapid.T, label string) sim.Val {
 		return sim.Nil()
 	case 1:
 		return sim.Val{T: "nilptr"}
+	case 7:
+		// no JSON form at all: bare, or inside a slice / a map
+		u := sim.Val{T: rapid.SampledFrom([]string{"nan", "+inf", "-inf", "f32nan", "*nan", "chan", "func", "complex"}).Draw(rt, label+".unenc")}
+		switch rapid.IntRange(0, 3).Draw(rt, label+".unencwrap") {
+		case 0:
+			return sim.Val{T: "slice", L: []sim.Val{sim.I(1), u}}
+		case 1:
+			return sim.Val{T: "map", M: []sim.KV{{K: "a", V: sim.S("x")}, {K: "b", V: u}}}
+		}
+		return u
 	case 2, 3, 4, 5, 6:
 		return genGoVal(rt, label, 2)
 	default:
